@@ -31,6 +31,8 @@ pub enum Op {
     Drop,
     /// clone twice; `spanned().collect()` of one clone must equal manual iteration of the other
     Drain,
+    /// `handles[h].clone_from(&handles[src])` (the other half of the `Clone` trait), same handle kind required
+    CloneFrom(usize),
 }
 
 #[derive(Clone, Debug, PartialEq)]
@@ -65,6 +67,7 @@ impl Step {
         match &self.op {
             Op::Bump(n) => json!({"h": self.h, "op": "Bump", "n": n}),
             Op::SetExtras(x) => json!({"h": self.h, "op": "SetExtras", "extras": exm_json(x)}),
+            Op::CloneFrom(src) => json!({"h": self.h, "op": "CloneFrom", "src": src}),
             other => json!({"h": self.h, "op": format!("{:?}", other)}),
         }
     }
@@ -80,6 +83,7 @@ impl Step {
             "SetExtras" => Op::SetExtras(exm_from(v.get("extras")?)?),
             "Drop" => Op::Drop,
             "Drain" => Op::Drain,
+            "CloneFrom" => Op::CloneFrom(v.get("src")?.as_u64()? as usize),
             _ => return None,
         };
         Some(Step { h, op })
@@ -275,6 +279,7 @@ fn gen_step(rng: &mut Rng, models: &[M], src: &[u8], is_str: bool, faults: bool)
         6,
         if live.len() > 1 { 3 } else { 0 },
         if m.spanned { 0 } else { 3 },
+        if live.len() > 1 { 5 } else { 0 },
     ];
     let op = match rng.weighted(&weights) {
         0 => Op::Next,
@@ -319,7 +324,12 @@ fn gen_step(rng: &mut Rng, models: &[M], src: &[u8], is_str: bool, faults: bool)
             })
         }
         8 => Op::Drop,
-        _ => Op::Drain,
+        9 => Op::Drain,
+        _ => {
+            // a source handle of the same kind (definition and spanned-ness), if there is one
+            let cands: Vec<usize> = live.iter().cloned().filter(|&j| j != h && models[j].def == m.def && models[j].spanned == m.spanned).collect();
+            if cands.is_empty() { Op::Clone } else { Op::CloneFrom(*rng.pick(&cands)) }
+        }
     };
     Step { h, op }
 }
@@ -626,7 +636,7 @@ macro_rules! pair_sim {
                     if models[h].fault_seen {
                         stats.op_after_fault_same_handle = true;
                     }
-                    let opkind: String = match &step.op { Op::Bump(_) => "Bump".into(), Op::SetExtras(_) => "SetExtras".into(), o => format!("{:?}", o) };
+                    let opkind: String = match &step.op { Op::Bump(_) => "Bump".into(), Op::SetExtras(_) => "SetExtras".into(), Op::CloneFrom(_) => "CloneFrom".into(), o => format!("{:?}", o) };
                     let mut executed = true;
 
                     match step.op.clone() {
@@ -789,6 +799,33 @@ macro_rules! pair_sim {
                                     stats.hit("op_clone");
                                 }
                                 Err(p) => violation = Some(violation!("CLONE-panic", stepno, opkind, "", "clone() panicked: {}", p)),
+                            }
+                        }
+                        Op::CloneFrom(src) => {
+                            if src >= handles.len() || src == h || !models[src].alive || models[src].def != models[h].def || models[src].spanned != models[h].spanned {
+                                stats.hit("skipped_inapplicable");
+                                continue;
+                            }
+                            // take the destination out so that both can be borrowed
+                            let mut dst = std::mem::replace(&mut handles[h], H::Dead);
+                            let r = catch(|| match (&mut dst, &handles[src]) {
+                                (H::LA(d), H::LA(s)) => d.clone_from(s),
+                                (H::LB(d), H::LB(s)) => d.clone_from(s),
+                                (H::SA(d), H::SA(s)) => d.clone_from(s),
+                                (H::SB(d), H::SB(s)) => d.clone_from(s),
+                                _ => unreachable!("kinds were compared through the models"),
+                            });
+                            handles[h] = dst;
+                            match r {
+                                Ok(()) => {
+                                    let keep_fault = models[h].fault_seen;
+                                    models[h] = models[src].clone();
+                                    models[h].fault_seen = keep_fault || models[src].fault_seen;
+                                    if models[src].start == models[h].start { stats.hit("probe_clone_from_same_position_other_extras"); }
+                                    if stats.first_next_seen { stats.clone_or_morph_after_next = true; }
+                                    stats.hit("op_clone_from");
+                                }
+                                Err(p) => violation = Some(violation!("CLONE-panic", stepno, opkind, "", "clone_from() panicked: {}", p)),
                             }
                         }
                         Op::Morph => {
